@@ -1,9 +1,83 @@
 import QecVerif.Model.Wire
+import QecVerif.Model.Ftp
 namespace Qec.Drv
-open Qec Qec.Wire
+open Qec Qec.Wire Qec.Ftp
+
+namespace C03W
+
+def parseT3? (s : String) : Option TIdx :=
+  match s.splitOn "," with
+  | [a, b, c] => do let a ← a.toInt?; let b ← b.toInt?; let c ← c.toInt?; pure (a, b, c)
+  | _ => none
+
+/-- clusters: `.` = none; clusters joined by `|`, indices by `;`, coordinates by `,` -/
+def parseClusters? (s : String) : Option (List (List TIdx)) :=
+  if s == "." then some [] else (s.splitOn "|").mapM fun c => (c.splitOn ";").mapM parseT3?
+
+/-- cluster matches: `.` = none; matches joined by `|`; one match = `ax>az>bx>bz` -/
+def parseMatches? (s : String) : Option (List ((TIdx × TIdx) × (TIdx × TIdx))) :=
+  if s == "." then some [] else
+  (s.splitOn "|").mapM fun m =>
+    match m.splitOn ">" with
+    | [a, b, c, d] => do
+        let a ← parseT3? a; let b ← parseT3? b; let c ← parseT3? c; let d ← parseT3? d; pure ((a, b), (c, d))
+    | _ => none
+
+/-- `step_measurement_errors`: `N` = None, `.` = empty list, else rows joined by `/` -/
+def parseOptMat? (s : String) : Option (Option (List BVec)) :=
+  if s == "N" then some none else (parseMat? s).map some
+
+def showResult : Except Err Result → String
+  | .error .noStepMeas => "QecsimError:nostepmeas"
+  | .ok r => s!"su={showOpt showBool r.success} rec={showBits r.recovery} cv={showNatList r.cv}"
+
+def showStage : Option Stage → String
+  | none => "raise"
+  | some s => s!"op={showBits s.op} x={s.x} z={s.z}"
+
+end C03W
+open C03W
 
 /-- driver ops of property C03 (first protocol token `c03`) -/
 def c03 : List String → Option String
+  -- `_tparity(T, a, b)`
+  | ["tp", t, a, b] => do
+      let t ← parseInt? t; let a ← parseInt? a; let b ← parseInt? b
+      pure (match tparity t a b with | none => "ZeroDivisionError" | some v => toString v)
+  -- `_measurement_error_tparities(code(R, C), m)`
+  | ["mtp", r, c, m] => do
+      let r ← parseInt? r; let c ← parseInt? c; let m ← parseBits? m
+      let p := measurementTparities r c m; pure s!"{p.1},{p.2}"
+  -- tail of the rotated-toric `decode_ftp` from the recorded stage outputs
+  | ["fin", r, c, itp, t, sop, sx, sz, cop, cx, cz, meas] => do
+      let r ← parseInt? r; let c ← parseInt? c; let itp ← parseBool? itp; let t ← parseInt? t
+      let sop ← parseBits? sop; let sx ← parseNat? sx; let sz ← parseNat? sz
+      let cop ← parseBits? cop; let cx ← parseNat? cx; let cz ← parseNat? cz
+      let meas ← parseOptMat? meas
+      pure (showResult (composeToric r c itp t ⟨sop, sx, sz⟩ ⟨cop, cx, cz⟩ meas))
+  -- rotated-planar `decode_ftp` from the recorded stage outputs
+  | ["pl", n, sop, cop] => do
+      let n ← parseNat? n; let sop ← parseBits? sop; let cop ← parseBits? cop
+      pure (showBits (composePlanar n sop cop))
+  -- `_recovery_tparities` from the recorded clusters
+  | ["rtp", r, c, t, cl] => do
+      let r ← parseInt? r; let c ← parseInt? c; let t ← parseInt? t; let cl ← parseClusters? cl
+      pure (showStage (recoveryTparities r c t cl))
+  -- `_cluster_recovery_tparities` from the recorded cluster matches
+  | ["crtp", r, c, t, ms] => do
+      let r ← parseInt? r; let c ← parseInt? c; let t ← parseInt? t; let ms ← parseMatches? ms
+      pure (showStage (clusterRecoveryTparities r c t ms))
+  -- the monitor on a real decoder output: synd S rec == xor of all rows
+  | ["mon", s, rows, rec] => do
+      let s ← parseMat? s; let rows ← parseMat? rows; let rec ← parseBits? rec
+      pure (showBool (ftpOk s rows rec))
+  -- witness for `reachable`: step errors and flips that make the simulation produce `rows`
+  | ["wit", n, s, t, rows, e] => do
+      let n ← parseNat? n; let s ← parseMat? s; let t ← parseNat? t; let rows ← parseMat? rows; let e ← parseBits? e
+      let es := witnessErrors n t e
+      let meas := witnessMeas s es rows
+      let got := (decoderInput n s es meas true).syndrome
+      pure s!"es={showMat es} meas={showMat meas} same={showBool (got == rows)}"
   | _ => none
 
 end Qec.Drv
